@@ -244,6 +244,7 @@ nni_listener_init(nni_listener *l, nni_sock *s, nni_sp_tran *tran)
 	}
 
 	if (rv == 0) {
+		NNI_VERIF_DELAY(2, l);
 		nni_mtx_lock(&listeners_lk);
 		rv = nni_id_alloc32(&listeners, &l->l_id, l);
 		nni_mtx_unlock(&listeners_lk);
@@ -375,6 +376,7 @@ nni_listener_close(nni_listener *l)
 	l->l_closed = true;
 	nni_id_remove(&listeners, l->l_id);
 	nni_mtx_unlock(&listeners_lk);
+	NNI_VERIF_DELAY(4, l);
 
 	nni_listener_shutdown(l);
 
